@@ -1,5 +1,5 @@
 #!/bin/bash
-# Behaviour-preserving refactors (refactors/*.patch, agents/, agents2/, agents3/, agents4/, agents5/, agents6/): every check must stay silent on them.
+# Behaviour-preserving refactors (refactors/*.patch, agents/, agents2/, agents3/, agents4/, agents5/, agents6/, agents7/): every check must stay silent on them.
 # NOT a registered check. usage: scripts/refactors.sh [pattern]   (JOBS=n parallel worktrees, default 6)
 cd "$(dirname "$0")/.." || exit 2
 export GOFLAGS=-mod=mod GOPROXY=off GOSUMDB=off GOTOOLCHAIN=local; unset GOWORK
@@ -16,7 +16,7 @@ one() {
   git -C /repo worktree remove --force "$WT" >/dev/null 2>&1; rm -rf "$WT" "$EV"
 }
 export -f one
-ls refactors/*.patch refactors/agents/*.patch refactors/agents2/*.patch refactors/agents3/*.patch refactors/agents4/*.patch refactors/agents5/*.patch refactors/agents6/*.patch | grep "${1:-.}" \
+ls refactors/*.patch refactors/agents/*.patch refactors/agents2/*.patch refactors/agents3/*.patch refactors/agents4/*.patch refactors/agents5/*.patch refactors/agents6/*.patch refactors/agents7/*.patch | grep "${1:-.}" \
   | xargs -P "${JOBS:-6}" -I{} bash -c 'one {}' | sort | tee /tmp/refactors.$$.out
 echo "silent: $(grep -c 'SILENT' /tmp/refactors.$$.out)  not silent: $(grep -vc 'SILENT' /tmp/refactors.$$.out)"
 rc=0; grep -vq 'SILENT' /tmp/refactors.$$.out && rc=1
